@@ -572,7 +572,21 @@ class G:
         dop = {"k": "dtc", "id": self.nid("dtcdop"),
                "dct": {"t": "std", "bt": "A_UINT32", "bl": bl, "enc": None, "hl": self.pick([None, False])},
                "dtcs": dtcs}
+        if self.opts.get("dtc_linked", True) and self.chance(40):
+            # LINKED-DTC-DOPS: some of the effective DTCs are inherited from another DTC-DOP, which also has
+            # DTCs that are explicitly not inherited or hidden by an own DTC of the same name
+            k = self.d(st.integers(0, len(dtcs) - 1))
+            own, inh = dtcs[:k], dtcs[k:]
+            unused = [c for c in (0, 1, 2, 3, 4, 5, (1 << bl) - 1, (1 << bl) - 2) if c not in codes]
+            hidden = [[f"DTCH{i}", unused.pop(0)] for i in range(self.d(st.integers(0, 2)))]
+            clash = [[own[0][0], unused.pop(0)]] if own and self.chance(50) else []
+            dop["linked"] = {"id": self.nid("dtcdopL"), "own": [n for n, _ in own], "hidden": hidden, "clash": clash}
+            self.features.add("dtc-linked")
+            if inh:
+                self.features.add("dtc-inherited")
         name, code = self.pick(dtcs)
+        if dop.get("linked") and self.chance(60):
+            name, code = dtcs[-1]   # an inherited one (if any is)
         val = code if self.chance(60) else name
         self.features.add("dtc")
         return dop, val, bl // 8
